@@ -12,7 +12,7 @@ from pathlib import Path
 def write_config(path: Path, **kwargs) -> Path:
     import yaml
 
-    path.write_text(yaml.safe_dump(kwargs) if kwargs else "{}\n")
+    path.write_text(yaml.safe_dump(kwargs, sort_keys=False) if kwargs else "{}\n")
     return path
 
 
